@@ -70,7 +70,8 @@ func cmdCheck(args []string) int {
 	os.RemoveAll(*outDir)
 	os.MkdirAll(*outDir, 0o755)
 
-	cs, err := loadContracts(*repo, nil)
+	extra, _ := filepath.Glob(filepath.Join(*verif, "contracts", "*_verif.go"))
+	cs, err := loadContracts(*repo, extra)
 	if err != nil {
 		fmt.Fprintln(os.Stderr, "contracts:", err)
 		return 2
@@ -115,13 +116,19 @@ func cmdCheck(args []string) int {
 		timeout = 60
 		both = true
 	}
-	solveAll(results, *outDir, timeout, both, 10)
-
-	// classify
 	var known KnownFile
 	if b, err := os.ReadFile(filepath.Join(*verif, "known_findings.json")); err == nil {
 		json.Unmarshal(b, &known)
 	}
+	for _, r := range results {
+		for _, o := range r.G.obls {
+			if matchKnown(known.Findings, *prop, o.Name) != nil {
+				o.TimeoutS = 4 // expected not to discharge: do not wait for the full limit
+			}
+		}
+	}
+	solveAll(results, *outDir, timeout, both, 10)
+
 	var base Baseline
 	if b, err := os.ReadFile(filepath.Join(*verif, "baseline", "obligations.json")); err == nil {
 		json.Unmarshal(b, &base)
@@ -206,6 +213,8 @@ func cmdCheck(args []string) int {
 	if needConf {
 		conf = runConformance(*repo, *verif, *prop, *tier, seed)
 	}
+	knownSeen := map[string]bool{}
+	nKnownObl := 0
 	replayDir := filepath.Join(*verif, "replays")
 	if *replayDirF != "" {
 		replayDir = *replayDirF
@@ -213,7 +222,12 @@ func cmdCheck(args []string) int {
 	for _, o := range failed {
 		kf := matchKnown(known.Findings, *prop, o.Name)
 		if kf != nil {
-			line := fmt.Sprintf("KNOWN-FINDING: property=%s %s [obligation %s: %s]", *prop, kf.What, o.Name, o.Result)
+			nKnownObl++
+			if knownSeen[kf.What] {
+				continue
+			}
+			knownSeen[kf.What] = true
+			line := fmt.Sprintf("KNOWN-FINDING: property=%s %s [first failing obligation %s: %s]", *prop, kf.What, o.Name, o.Result)
 			if kf.ConfCase != "" && conf != nil {
 				if conf.hasFailure(kf.ConfCase) {
 					line += " (re-confirmed on the real code: " + kf.ConfCase + ")"
@@ -277,6 +291,7 @@ func cmdCheck(args []string) int {
 			}
 		}
 	}
+	sort.Strings(knownLines)
 	for _, l := range knownLines {
 		fmt.Println(l)
 	}
@@ -335,7 +350,7 @@ func cmdCheck(args []string) int {
 		cov := map[string]interface{}{
 			"obligations":              nObl,
 			"discharged":               nDis,
-			"known_finding_obligations": len(knownLines),
+			"known_finding_obligations": nKnownObl,
 			"checker_cmd":              fmt.Sprintf("govc check -property %s -tier %s (per obligation: z3-new -T:%d | cvc5 --tlimit | z3 -T, first definitive answer)", *prop, *tier, timeout),
 			"trusted_base": []string{"govc (this VC generator: SSA -> SMT-LIB2)", "golang.org/x/tools/go/ssa v0.29.0", "z3 5.1.0", "cvc5 1.0", "z3 4.8.12",
 				"contracts marked trusted / pure / axiom / rely in the contract files (listed under assumptions)"},
@@ -360,7 +375,7 @@ func cmdCheck(args []string) int {
 		}
 		// proof level requires discharged == obligations: known findings are obligations that are
 		// deliberately not discharged; they are reported separately and excluded from the count.
-		cov["obligations"] = nObl - len(knownLines)
+		cov["obligations"] = nObl - nKnownObl
 		ev := map[string]interface{}{
 			"property_id": *prop, "tier": *tier, "seed": seed, "level": level, "coverage": cov,
 			"assumptions": assume, "wall_s": wall, "violations": violations,
@@ -369,8 +384,8 @@ func cmdCheck(args []string) int {
 		b, _ := json.MarshalIndent(ev, "", " ")
 		os.WriteFile(filepath.Join(*verif, "evidence", *prop+".json"), b, 0o644)
 	}
-	fmt.Printf("%s %s: %d obligations, %d discharged, %d known findings, %d violations, %d covers, %.1fs (load %.1fs, solvers %dms) exit=%d\n",
-		*prop, *tier, nObl, nDis, len(knownLines), violations, nCover, wall, l.loadS, solverMs, exit)
+	fmt.Printf("%s %s: %d obligations, %d discharged, %d not discharged under %d known findings, %d violations, %d covers, %.1fs (load %.1fs, solvers %dms) exit=%d\n",
+		*prop, *tier, nObl, nDis, nKnownObl, len(knownLines), violations, nCover, wall, l.loadS, solverMs, exit)
 	return exit
 }
 
